@@ -43,6 +43,15 @@ var versionImpl = map[string]core.Adapter{
 	"vercmp": func(a []string) string {
 		return strconv.Itoa(sgn(version.Compare(argVersion(a[0:3]), argVersion(a[3:6]))))
 	},
+	// the sort adapter on a two-element slice, both ways round and through a longer slice
+	"verless": func(a []string) string {
+		x, y := argVersion(a[0:3]), argVersion(a[3:6])
+		l := (version.Slice{x, y}).Less(0, 1)
+		if (version.Slice{y, x}).Less(1, 0) != l || (version.Slice{x, x, y, y}).Less(1, 2) != l {
+			return "less-depends-on-position"
+		}
+		return strconv.FormatBool(l)
+	},
 	// verrev compares two component strings through the exported API: as upstream parts
 	"verrev": func(a []string) string {
 		x := version.Version{Version: core.MustUnHex(a[0])}
@@ -110,6 +119,8 @@ func versionReadable(op string, a []string) string {
 	switch op {
 	case "vercmp":
 		return "Compare(" + showVer(a[0:3]) + ", " + showVer(a[3:6]) + ")"
+	case "verless":
+		return "Slice{" + showVer(a[0:3]) + ", " + showVer(a[3:6]) + "}.Less(0, 1)"
 	case "verrev":
 		return fmt.Sprintf("Compare(upstream %q, upstream %q)", core.MustUnHex(a[0]), core.MustUnHex(a[1]))
 	}
@@ -230,6 +241,27 @@ func streamVercmp(g *core.G) {
 	for i := 0; i < n; i++ {
 		a, b := genVersionPair(g.R, verAlphabet)
 		g.Emit("vercmp", append(encVersion(a), encVersion(b)...)...)
+		if i%3 == 0 {
+			g.Emit("verless", append(encVersion(a), encVersion(b)...)...)
+		}
+		if i%8 == 0 {
+			// two spellings of dpkg-equal upstream parts (or revisions) and a deciding other part
+			c, d := a, a
+			switch g.R.Intn(4) {
+			case 0:
+				c.Version, d.Version = "1"+a.Version, "01"+a.Version
+			case 1:
+				c.Version, d.Version = a.Version+".0", a.Version+".000"
+			case 2:
+				c.Version, d.Version = a.Version+"a", a.Version+"a0"
+			case 3:
+				c.Version, d.Version = a.Version+".", a.Version+".0"
+			}
+			d.Revision = b.Revision
+			g.Emit("vercmp", append(encVersion(c), encVersion(d)...)...)
+			g.Emit("verless", append(encVersion(c), encVersion(d)...)...)
+			g.Emit("verless", append(encVersion(d), encVersion(c)...)...)
+		}
 	}
 	// single components, including long digit runs (no limit on magnitude)
 	for i := 0; i < n/4; i++ {
@@ -272,7 +304,7 @@ func init() {
 		Facts: []string{"version.order:translated", "version.cisdigit:translated", "version.cisalpha:translated",
 			"fingerprint:version.verrevcmp", "fingerprint:version.Compare", "fingerprint:version.order"},
 		Streams: []core.Stream{{Name: "dpkg", Gen: streamDpkg, Domain: "support, not proof: the real `dpkg --compare-versions` against the Lean specification Spec.Version.compare on well-formed version pairs (validates the reading of Policy 5.6.12 the theorems are stated against)"}, {Name: "vercmp", Gen: streamVercmp,
-			Domain: "pairs of versions over the parser's alphabet [A-Za-z0-9.+~:-]: common prefix plus one edit (digit-run extension, leading zeros, letter/punctuation swap, tilde, early end, revision-only and epoch-only differences), random components, digit runs up to 40 digits; observable: sign of Compare; thorough adds all pairs of strings of length <= 3 over {0,1,9,a,Z,~,+,.,-}"}},
+			Domain: "pairs of versions over the parser's alphabet [A-Za-z0-9.+~:-]: common prefix plus one edit (digit-run extension, leading zeros, letter/punctuation swap, tilde, early end, revision-only and epoch-only differences), random components, digit runs up to 40 digits; observable: sign of Compare and the sort adapter Slice.Less (also on dpkg-equal upstream parts spelled differently with a deciding revision); thorough adds all pairs of strings of length <= 3 over {0,1,9,a,Z,~,+,.,-}"}},
 		Impl:     versionImpl,
 		Readable: versionReadable,
 		TrustedBase: []string{"Lean 4.33.0 kernel", "axioms reported per theorem under coverage.axioms (subset of propext, Classical.choice, Quot.sound)",
